@@ -5,7 +5,7 @@ import conc
 import driver
 
 PROPERTIES_FILE = "Properties/Properties_C07.v"
-COQ_DEPS = ["Proofs/Group_proofs.vo"]
+COQ_DEPS = ["Proofs/Group_proofs.vo", "Proofs/GroupR_proofs.vo"]
 GEN_MODULES = ["Gen_group"]
 LEVEL = "proof"
 TRUSTED = [
@@ -14,7 +14,12 @@ TRUSTED = [
     "enter/leave/wait/wait_slow/notify/wake from Gen_group); dispatch_group_leave's clearing loop is a hand-coded do/while around "
     "cmpxchgv and is mirrored by Group.leave_new; ties: (a) site-list equalities checked by Coq, (b) per-thread trace conformance: "
     "every recorded thread trace of the real library must be accepted by Group.tstep (which recomputes every value a CAS tries to "
-    "store from the value it read)",
+    "store from the value it read), (c) the replay of every recorded round as a run of the GLOBAL model: Model/GroupR.v executes all "
+    "threads' events of a round on Group.gstep (an event is taken only if the model accepts it in its current shared state and the "
+    "kernel's recorded result is one the model allows), the round must be consumed entirely and end in the recorded final state; "
+    "C07_replay_reach: the scheduler only takes model steps; the order it is asked to try (recorder's tickets, repaired by a search "
+    "on dg_state / dg_notify_tail / futex causality in lib/props/c07.py round_order) is untrusted: a wrong order can only make the "
+    "replay fail",
     "atomicity: each os_atomic_* operation is one step; sequentially consistent interleaving (memory-order strength is compared "
     "with the source in the site lists only)",
     "the notify list is abstracted to the sequence of continuations exchanged into dg_notify_tail since the last detach; the "
@@ -441,7 +446,7 @@ def round_order(thr, limit=400000):
     return order, True
 
 
-def coq_rounds(name, alltr, allfin, chunk_events=14000, workers=4, timeout=900):
+def coq_rounds(name, alltr, allfin, chunk_events=14000, workers=4, timeout=900, period=INV_PERIOD):
     """alltr: list of (sv, [CEv], round, thread, seed).  One Coq file per chunk of rounds: Group.conform on every thread trace and,
     for every round, GroupR.replay of the whole round on the global model (all threads' events executed on Group.gstep in the
     order of the recorder's stamps).  Returns (conformance results aligned with alltr, dict(mismatches, counts))."""
@@ -490,7 +495,7 @@ def coq_rounds(name, alltr, allfin, chunk_events=14000, workers=4, timeout=900):
             defs.append("Definition qs%d : queues := [%s]." % (k, ";\n".join(qs)))
             defs.append("Definition ord%d : list Z := [%s]." % (k, "; ".join(z(tid) for tid in order)))
             calls.append("Eval vm_compute in concat (map (fun q => let '(i, d) := conform (snd q) in [i; d]) qs%d)." % k)
-            calls.append("Eval vm_compute in replay inv_b %d qs%d ord%d." % (INV_PERIOD, k, k))
+            calls.append("Eval vm_compute in replay inv_b %d qs%d ord%d." % (period, k, k))
         body = ["Definition %s : Z := %d." % (nm, x) for x, nm in nums.items()]
         body += ["Definition %s (a b : Z) := mkEv %d %d 0 %d %d a b %d." % (nm, kk[0], kk[1], kk[2], kk[3], kk[4])
                  for kk, nm in combos.items()]
@@ -588,7 +593,8 @@ def correspond(ctx):
     for (sv, t, rd, thr, seed) in toolong[:5]:
         mism.append({"what": "a recorded thread trace has %d events inside one round (a thread spinning inside the library)" % len(t),
                      "detail": {"seed": seed, "round": rd, "thread": thr, "trace_tail": [e.brief() for e in t[-12:]]}})
-    res, rep = coq_rounds("c07_rounds", alltr, allfin)
+    inv_period = INV_PERIOD if ctx.tier == "quick" else 40
+    res, rep = coq_rounds("c07_rounds", alltr, allfin, period=inv_period)
     for (i, idle), (sv, t, rd, thr, seed) in zip(res, alltr):
         if i != -1 or idle != 1:
             lo = max(0, i - 12) if i >= 0 else max(0, len(t) - 20)
@@ -616,7 +622,7 @@ def correspond(ctx):
                     "dg_gen / dg_notify_head / dg_notify_tail and on the target queue's dq_items_tail recorded by the "
                     "DISPATCH_VERIF hook (a run of NULL loads from dg_notify_head by one spinning thread written once) is replayed through Group.tstep inside Coq; API-level oracle on stamps: wait==0 needs a "
                     "moment in [call, return] where the count could be zero, wait!=0 needs the deadline reached by the library's "
-                    "clock and a moment where the count could be non-zero, every notify block runs exactly once and not while an "
+                    "clock and a moment where the count could be non-zero [global replay: every round is then executed on Group.gstep by GroupR.sched and the decidable clauses of Inv1/Inv2/Inv3 (GroupR_inv.inv_b) are evaluated on every 300-th state and on the final one], every notify block runs exactly once and not while an "
                     "enter that returned before the notify call provably had not started to leave, nothing blocked or unfired after "
                     "quiescence; distinct = distinct shapes (kind, offset, outcome) of thread traces",
             "samples": samples, "distribution": total, "traces_validated_against_impl": len(alltr),
